@@ -77,7 +77,22 @@ func inCtx(r *rt.Runtime, cpu, mem uint64, f func() error) (killed bool, err err
 
 // execSource compiles src with both compile entry points and, if it is an
 // acceptable chunk, runs it in a fresh runtime for a bounded number of ticks.
-func execSource(src []byte) (o Outcome) {
+func execSource(src []byte) Outcome { return execSourceGen(src, "") }
+
+// sanitizeVandal: the programs of the "vandal" generator come from a fixed
+// grammar (vandal_test.go) that touches nothing outside the process, so they
+// keep the real require, io.write/read and package functions.
+const sanitizeVandal = `
+local function deny() error("denied in C04 source runs", 2) end
+for _, k in ipairs{"exit", "execute", "remove", "rename", "tmpname", "setlocale"} do os[k] = deny end
+for _, k in ipairs{"popen", "open", "tmpfile"} do io[k] = deny end
+dofile, loadfile = deny, deny
+golib = nil
+package.loaded.golib = nil
+if debug then debug.sethook = deny end
+`
+
+func execSourceGen(src []byte, gen string) (o Outcome) {
 	stage := "setup"
 	defer func() {
 		if p := recover(); p != nil {
@@ -130,7 +145,11 @@ func execSource(src []byte) (o Outcome) {
 		r.Close(&err)
 	}()
 	env := rt.TableValue(r.GlobalEnv())
-	if clos, err := r.CompileAndLoadLuaChunk("sanitize", []byte(sanitize), env); err != nil {
+	prelude := sanitize
+	if strings.HasPrefix(gen, "vandal") {
+		prelude = sanitizeVandal
+	}
+	if clos, err := r.CompileAndLoadLuaChunk("sanitize", []byte(prelude), env); err != nil {
 		panic("sanitize prelude: " + err.Error())
 	} else if err := rt.Call(r.MainThread(), rt.FunctionValue(clos), nil, rt.NewTerminationWith(nil, 0, false)); err != nil {
 		panic("sanitize prelude: " + err.Error())
@@ -147,9 +166,16 @@ func execSource(src []byte) (o Outcome) {
 	}
 	stage = "run"
 	term := rt.NewTerminationWith(nil, 0, true)
-	killed, err = inCtx(r, srcRunCPU, srcRunMem, func() error {
-		return rt.Call(r.MainThread(), rt.FunctionValue(clos), nil, term)
-	})
+	if strings.HasPrefix(gen, "vandal-unlimited") {
+		// functions that are not declared CPU-safe (require, io, os, debug ...)
+		// refuse to run under a limit: these fixed-grammar programs run without
+		// one (the child's watchdog bounds them)
+		killed, err = false, rt.Call(r.MainThread(), rt.FunctionValue(clos), nil, term)
+	} else {
+		killed, err = inCtx(r, srcRunCPU, srcRunMem, func() error {
+			return rt.Call(r.MainThread(), rt.FunctionValue(clos), nil, term)
+		})
+	}
 	o.NonTrivial = true
 	switch {
 	case killed:
@@ -593,9 +619,11 @@ func mutateBytes(t *rapid.T, s string) (string, string) {
 // genSource draws one source case.
 func genSource(t *rapid.T) Case {
 	loadSeeds()
-	gen := rapid.SampledFrom([]string{"bytes", "soup", "hostile-soup", "mutate", "mutate", "mutate-window", "mutate-benign", "mutate-benign", "mutate-benign", "mutate-benign", "directive-soup", "directive-soup", "directive-soup"}).Draw(t, "gen")
+	gen := rapid.SampledFrom([]string{"bytes", "soup", "hostile-soup", "mutate", "mutate", "mutate-window", "mutate-benign", "mutate-benign", "mutate-benign", "mutate-benign", "directive-soup", "directive-soup", "directive-soup", "vandal", "vandal", "vandal"}).Draw(t, "gen")
 	var src string
 	switch gen {
+	case "vandal":
+		src = vandalSource(t)
 	case "directive-soup":
 		var lang string
 		src, lang = directiveSoup(t)
@@ -747,7 +775,7 @@ func sourceProp(w *worker) func(t *rapid.T) {
 			return
 		}
 		w.mark(c, 0, 0)
-		o := execSource(c.Src)
+		o := execSourceGen(c.Src, c.Gen)
 		w.rec.Eval()
 		g := c.Gen
 		if i := strings.IndexByte(g, '('); i >= 0 {
